@@ -216,6 +216,29 @@ def run(ctx):
             others = [x.callee for x in ro.calls if re.search(r'::(rev|skip|take|filter|step_by|zip|chain)$', x.callee)]
             if start is not None and n_arr is not None and len(nx) == 1 and len(stores) == 1 and not others:
                 idx.extend(range(start, n_arr))
+    # `for arc in oid_parsed.iter_mut().skip(k) { *arc = <byte read> }`: the same tail, written with skip(k) (k constant)
+    for c in ro.calls:
+        if c.callee.endswith('Iterator::skip') and len(c.args) == 2 and op_const(c.args[1]) is not None:
+            vis = set()
+            origins(ro, c.args[0], visited=vis)
+            n_arr = None
+            for l in vis:
+                m = re.match(r'^\[u8; (\d+)\]$', ro.j['locals'][l]['ty'])
+                if m:
+                    n_arr = int(m.group(1))
+            im = [x for x in ro.calls if re.search(r'<impl \[T\]>::iter_mut$', x.callee)]
+            for x in im:
+                origins(ro, x.args[0], visited=vis)
+            for l in vis:
+                m = re.match(r'^\[u8; (\d+)\]$', ro.j['locals'][l]['ty'])
+                if m:
+                    n_arr = int(m.group(1))
+            nx = [x for x in ro.calls if x.callee.endswith('as std::iter::Iterator>::next') and 'Skip' in x.callee and ro.in_cycle(x.block)]
+            stores = [bi for bi in range(ro.n) if ro.in_cycle(bi) for stt in ro.blocks[bi]['stmts']
+                      if stt['s'] == 'assign' and len(stt['place']['p']) == 1 and stt['place']['p'][0]['k'] == 'deref']
+            others = [x.callee for x in ro.calls if re.search(r'::(rev|take|filter|step_by|zip|chain)$', x.callee)]
+            if n_arr is not None and len(im) == 1 and len(nx) == 1 and len(stores) == 1 and not others:
+                idx.extend(range(op_const(c.args[1]), n_arr))
     ctx.check(sorted(idx) == [0, 1, 2, 3, 4, 5], 'R18.3', 'oid:reader_indices', 'read_object_identifier stores each of the six arcs exactly once', ro.where(),
               'read_object_identifier stores arcs at indices %s (the writer emits arcs 0..5)' % sorted(idx))
     widx = []
